@@ -392,6 +392,42 @@ func (e *Exec) rec(f Flat) sod.Object {
 	return e.typ.fromRec(r)
 }
 
+// scribble overwrites everything an object holds (but its uuid), through every pointer, slice and map
+// it reaches: the harness does it to every object it handed to a write call once the call has returned,
+// and to every object a read returned once it has been recorded. A library that keeps a reference
+// instead of a copy (cache, pending writes) then shows wrong values in EVERY profile, not only in C14's
+// probes: "mutating an object after storing it, or an object returned by a read, never changes what
+// later reads return".
+func scribble(o sod.Object) {
+	r, ok := o.(*shape.Rec)
+	if !ok || r == nil {
+		return
+	}
+	r.A, r.B, r.U, r.V, r.F, r.G = -424242, 42, 424242, 4242, -42.5, -4.25
+	r.S, r.K = "SCRIBBLED-s", "scribbled-K"
+	r.T = time.Unix(42, 42)
+	if r.N != nil {
+		r.N.X, r.N.Y = 4242, "scribbled-n"
+		if r.N.D != nil {
+			r.N.D.Z, r.N.D.W = -4.5, "scribbled-d"
+		}
+	}
+	r.NV.P, r.NV.Q = 4242, "scribbled-q"
+	r.Emb.E = 4242
+	for i := range r.Sl {
+		r.Sl[i] = "scribbled"
+	}
+	for k := range r.M {
+		r.M[k] = 424242
+	}
+	if r.M != nil {
+		r.M["scribbled"] = 1
+	}
+	if r.P != nil {
+		*r.P = 424242
+	}
+}
+
 func (e *Exec) flat(o sod.Object) Flat {
 	r := toRec(o)
 	return recToFlat(r, e.unum(r.UUID()))
@@ -679,6 +715,7 @@ func (e *Exec) step(t []string) {
 				}
 			}()
 		}
+		scribble(r)
 	case "many", "bulk":
 		i := 1
 		csize := 0
@@ -724,6 +761,9 @@ func (e *Exec) step(t []string) {
 			}
 		}
 		defer func() { e.emit("r %s %d", cls(err), n) }()
+		for _, o := range objs {
+			scribble(o)
+		}
 	case "del":
 		u, _ := strconv.Atoi(t[1])
 		e.emit("r %s", cls(db.Delete(e.ofU(u))))
@@ -755,6 +795,7 @@ func (e *Exec) step(t []string) {
 			e.emit("r %s", cls(err))
 		} else {
 			e.emit("r ok %s", e.flat(o))
+			scribble(o)
 		}
 	case "exist":
 		u, _ := strconv.Atoi(t[1])
@@ -778,6 +819,7 @@ func (e *Exec) step(t []string) {
 		fl := make([]Flat, 0, len(objs))
 		for _, o := range objs {
 			fl = append(fl, e.flat(o))
+			scribble(o)
 		}
 		sort.Slice(fl, func(i, j int) bool { return fl[i].U < fl[j].U })
 		ss := make([]string, len(fl))
@@ -874,6 +916,7 @@ func (e *Exec) step(t []string) {
 		fls := make([]Flat, 0, len(objs))
 		for _, o := range objs {
 			fls = append(fls, e.flat(o))
+			scribble(o)
 		}
 		e.lastColl = append([]Flat{}, fls...)
 		e.lastRev = s.rev
